@@ -1,4 +1,5 @@
 import ElvisVerif.Lemmas.Ipv4
+import ElvisVerif.Lemmas.Udp
 import ElvisVerif.Spec.Rfc
 /-!
 # C08 — Header codecs round-trip and match the RFC wire formats bit for bit (IPv4, UDP, TCP)
@@ -225,3 +226,113 @@ theorem c08_ipv4_flags_new (may last : Bool) :
   cases may <;> cases last <;> decide
 
 end Elvis.Codec.Ipv4
+
+namespace Elvis.Codec.Udp
+open Elvis.Ck Elvis.Codec
+
+/-! ## UDP (RFC 768) -/
+
+/-- what `build_udp_header` is given: pseudo-header addresses, ports and the text -/
+structure Dgram where
+  src : Nat
+  sport : Nat
+  dst : Nat
+  dport : Nat
+  text : List UInt8
+
+/-- representable: 16-bit ports, 32-bit addresses, a text that fits the 16-bit length field -/
+def Dgram.Wf (d : Dgram) : Prop :=
+  d.sport < 65536 ∧ d.dport < 65536 ∧ d.src < 4294967296 ∧ d.dst < 4294967296 ∧
+  d.text.length + 8 < 65536
+
+instance (d : Dgram) : Decidable d.Wf := by unfold Dgram.Wf; infer_instance
+
+/-- the header value the builder's output denotes -/
+def Dgram.header (ck : Bool) (d : Dgram) : Header :=
+  { source := d.sport, destination := d.dport, length := d.text.length + 8,
+    checksum := asU16 ck (accBuild ck d.src d.sport d.dst d.dport (d.text.length + 8) d.text) }
+
+theorem build_ok (ck : Bool) (d : Dgram) (hw : d.Wf) :
+    build ck d.src d.sport d.dst d.dport d.text d.text.length =
+      .ok (be16 d.sport ++ be16 d.dport ++ be16 (d.text.length + 8) ++ be16 (d.header ck).checksum) := by
+  obtain ⟨h1, h2, h3, h4, h5⟩ := hw
+  have e1 : ¬ (d.text.length + 8 ≥ usizeLimit) := by unfold usizeLimit; omega
+  have e2 : ¬ (d.text.length + 8 > 65535) := by omega
+  simp only [build, e1, e2, if_false, Dgram.header, accBuild]
+
+/-- **decode ∘ encode = id** (pseudo header included): the header built for a representable
+    datagram, followed by its text, decodes to the same ports, length and checksum -/
+theorem c08_udp_decode_encode (ck : Bool) (d : Dgram) (hw : d.Wf) :
+    ∃ bytes, build ck d.src d.sport d.dst d.dport d.text d.text.length = .ok bytes ∧
+      bytes.length = 8 ∧
+      fromBytes ck (bytes ++ d.text) (8 + d.text.length) d.src d.dst = .ok (d.header ck) := by
+  refine ⟨_, build_ok ck d hw, by simp [be16], ?_⟩
+  obtain ⟨h1, h2, h3, h4, h5⟩ := hw
+  have hc := asU16_lt ck (accBuild ck d.src d.sport d.dst d.dport (d.text.length + 8) d.text)
+  simp only [List.append_assoc, be16_cons, List.cons_append, List.nil_append, fromBytes_cons8, W,
+    Dgram.header]
+  rw [W_n2b h1, W_n2b h2, W_n2b (show d.text.length + 8 < 65536 by omega), W_n2b hc,
+    accDec_eq_accBuild ck d.src d.dst d.text h1 h2 (by omega)]
+  simp only [matchesField_asU16, not_true_eq_false, if_false]
+  rw [if_neg (by omega)]
+
+/-- **encode ∘ decode = id on the consumed bytes**: if the decoder accepts a packet whose
+    `packet_len` argument is the real length, re-building the header from the decoded ports and
+    the text that followed gives back the 8 bytes consumed.  `hz` as for IPv4. -/
+theorem c08_udp_encode_decode {ck : Bool} {bs : List UInt8} {src dst : Nat} {hd : Header}
+    (h : fromBytes ck bs bs.length src dst = .ok hd) (hz : ck = false ∨ hd.checksum ≠ 0) :
+    build ck src hd.source dst hd.destination (bs.drop 8) (bs.length - 8) = .ok (bs.take 8) := by
+  obtain ⟨b0, b1, b2, b3, b4, b5, b6, b7, rest, rfl, hl, hm, rfl⟩ := fromBytes_ok_inv h
+  have hck := matchesField_eq hm hz
+  have := W_lt b4 b5
+  simp only [List.length_cons] at hl
+  have e3 : rest.length + 8 = W b4 b5 := by omega
+  have e4 : W b4 b5 - 8 + 8 = W b4 b5 := by omega
+  have e1 : ¬ (W b4 b5 ≥ usizeLimit) := by unfold usizeLimit; omega
+  have e2 : ¬ (W b4 b5 > 65535) := by omega
+  simp only [List.length_cons, List.drop_succ_cons, List.drop_zero, build, e3, e4, e1, e2, if_false]
+  rw [accDec_eq_accBuild ck src dst rest (W_lt b0 b1) (W_lt b2 b3) (W_lt b4 b5)] at hck
+  unfold accBuild at hck
+  rw [hck]
+  simp only [W, be16_of_bytes]
+  simp
+
+theorem c08_udp_encode_decode_default {bs : List UInt8} {src dst : Nat} {hd : Header}
+    (h : fromBytes false bs bs.length src dst = .ok hd) :
+    build false src hd.source dst hd.destination (bs.drop 8) (bs.length - 8) = .ok (bs.take 8) :=
+  c08_udp_encode_decode h (Or.inl rfl)
+
+/-- the RFC 768 view of a datagram -/
+def Dgram.rfc (ck : Bool) (d : Dgram) : Rfc.Udp :=
+  { sourcePort := d.sport, destinationPort := d.dport, length := d.text.length + 8,
+    checksum := (d.header ck).checksum }
+
+/-- **bit-for-bit RFC 768** -/
+theorem c08_udp_matches_rfc (ck : Bool) (d : Dgram) (hw : d.Wf) :
+    build ck d.src d.sport d.dst d.dport d.text d.text.length = .ok (Rfc.pack (d.rfc ck).fields) := by
+  rw [build_ok ck d hw]
+  obtain ⟨h1, h2, h3, h4, h5⟩ := hw
+  have hc := asU16_lt ck (accBuild ck d.src d.sport d.dst d.dport (d.text.length + 8) d.text)
+  simp only [Dgram.rfc, Dgram.header, Rfc.Udp.fields] at hc ⊢
+  generalize asU16 ck _ = cks at hc ⊢
+  simp only [Rfc.pack, Rfc.packFrom, Rfc.emit, Nat.reduceAdd, Nat.reduceDiv, Nat.reduceMod,
+    Nat.reduceSub, Nat.reducePow, List.nil_append, List.cons_append, List.append_nil,
+    Nat.zero_mul, Nat.zero_add, Nat.mod_one, Nat.div_one, be16, n2b, Except.ok.injEq,
+    List.cons.injEq, and_true]
+  refine ⟨?_, ?_, ?_, ?_, ?_, ?_, ?_, ?_⟩ <;> first | trivial | (apply n2b_congr; omega)
+
+/-- the decoder accepts the RFC packer's output followed by the text, same fields -/
+theorem c08_udp_accepts_rfc (ck : Bool) (d : Dgram) (hw : d.Wf) :
+    fromBytes ck (Rfc.pack (d.rfc ck).fields ++ d.text) (8 + d.text.length) d.src d.dst
+      = .ok (d.header ck) := by
+  obtain ⟨bytes, e1, _, e3⟩ := c08_udp_decode_encode ck d hw
+  rw [c08_udp_matches_rfc ck d hw] at e1
+  cases e1; exact e3
+
+theorem c08_udp_rfc_width (h : Rfc.Udp) : Rfc.totalWidth h.fields = 64 := by
+  simp [Rfc.totalWidth, Rfc.Udp.fields]
+
+example : Dgram.Wf { src := 0x7f000001, sport := 12345, dst := 0x7b2d4359, dport := 6789,
+                     text := [72, 101, 108, 108, 111] } := by decide
+
+end Elvis.Codec.Udp
